@@ -103,6 +103,16 @@ func (g *gen) leaf() plgen.Stmt {
 	case c < 70:
 		return plgen.Stmt{K: "raw", Op: "obs_getkey", V: k, Arg: fmt.Sprintf("obs(get_key(%s))", k)}
 	case c < 70+int(g.pStep*100):
+		switch g.r.Intn(6) {
+		case 0:
+			// the fault carrier in value position: the error travels through the enclosing builtin /
+			// assignment before it reaches the use() call sites
+			return plgen.Stmt{K: "raw", Op: "vstep_addk", V: k, N: g.tag, Arg: fmt.Sprintf("add_key(%s, vstep(%d))", k, g.tag)}
+		case 1:
+			return plgen.Stmt{K: "raw", Op: "vstep_set", V: v, N: g.tag, Arg: fmt.Sprintf("%s = vstep(%d)", v, g.tag)}
+		case 2:
+			return plgen.Stmt{K: "raw", Op: "vstep_obs", N: g.tag, Arg: fmt.Sprintf("obs(vstep(%d))", g.tag)}
+		}
 		return plgen.Stmt{K: "raw", Op: "step", Arg: "step()"}
 	case c < 70+int(g.pStep*100)+int(g.pExit*100):
 		return plgen.Stmt{K: "exit"}
@@ -298,6 +308,9 @@ type model struct {
 	uses   int
 	err    []chainEnt // non-nil: aborted with this chain
 	over   bool       // model ran out of recorded fault decisions
+	// errLoose: the fault happened in value position; between the fault position and the use() call
+	// sites the chain may hold further positions of the failing script's own file
+	errLoose bool
 	// executed counts dynamically executed statements; limit > 0 stops the model (size estimation)
 	executed, limit int
 }
@@ -389,6 +402,33 @@ func (m *model) stmt(f *mframe, s *plgen.Stmt) bool {
 			m.trace = append(m.trace, obsRec{f.name, "var " + s.V, show(x)})
 		case "obs_key", "obs_getkey":
 			m.trace = append(m.trace, obsRec{f.name, "key " + s.V, show(m.readKey(s.V))})
+		case "vstep_addk", "vstep_set", "vstep_obs":
+			d := 0
+			if m.nstep < len(m.faults) {
+				d = m.faults[m.nstep]
+			} else {
+				m.over = true
+			}
+			m.nstep++
+			if d == 1 || d == 2 {
+				// (in value position an exit decision is an error as well)
+				p := m.pos[s]
+				m.err = []chainEnt{{f.name, p.Ln, p.Col + strings.Index(s.Arg, "vstep")}}
+				// the enclosing construct may add positions of its own (add_key does) - in its own file
+				m.errLoose = true
+				return false
+			}
+			switch s.Op {
+			case "vstep_addk":
+				m.fields[s.V], m.hasKey[s.V] = i64(s.N), true
+			case "vstep_set":
+				f.assign(s.V, i64(s.N))
+			default:
+				m.trace = append(m.trace, obsRec{f.name, "", fmt.Sprint(s.N)})
+			}
+			if d == 3 {
+				m.cancel = true
+			}
 		case "step":
 			d := 0
 			if m.nstep < len(m.faults) {
@@ -550,10 +590,26 @@ func (Prop) Run(p *core.Plan) *core.Result {
 					what = "var " + n
 				}
 			case ast.TypeCallExpr:
-				what = "key " + e.Param[0].CallExpr().Param[0].Identifier().Name
+				if e.Param[0].CallExpr().Name != "vstep" {
+					what = "key " + e.Param[0].CallExpr().Param[0].Identifier().Name
+				}
 			}
 			simrt.Note('o', uint64(len(trace)))
 			trace = append(trace, obsRec{ctx.Name(), what, fmtVal(v)})
+			return nil
+		},
+		"vstep": func(ctx *runtime.Task, e *ast.CallExpr) *errchain.PlError {
+			d := simrt.Choose(1, 4, w.StepRate)
+			faults = append(faults, d)
+			switch d {
+			case 1, 2:
+				res.Faults["runtime_error_in_value_position"]++
+				return runtime.NewRunError(ctx, "injected run-time error", e.NamePos)
+			case 3:
+				res.Faults["signal"]++
+				hs.on = true
+			}
+			ctx.Regs.ReturnAppend(e.Param[0].IntegerLiteral().Val, ast.Int)
 			return nil
 		},
 		"step": func(ctx *runtime.Task, e *ast.CallExpr) *errchain.PlError {
@@ -575,6 +631,7 @@ func (Prop) Run(p *core.Plan) *core.Result {
 	}, map[string]runtime.FuncCheck{
 		"obs":  func(ctx *runtime.Task, e *ast.CallExpr) *errchain.PlError { return nil },
 		"step": func(ctx *runtime.Task, e *ast.CallExpr) *errchain.PlError { return nil },
+		"vstep": func(ctx *runtime.Task, e *ast.CallExpr) *errchain.PlError { return nil },
 	})
 	scripts, errs := engine.ParseScript(src, calls, checks)
 	if len(errs) > 0 {
@@ -678,18 +735,31 @@ func (Prop) Run(p *core.Plan) *core.Result {
 		if rerr == nil {
 			return viol("error", "error-swallowed", fmt.Sprintf("run returned nil, model expects an error with chain %v", m.err))
 		}
-		if len(rerr.PosChain) != len(m.err) {
+		got := rerr.PosChain
+		if m.errLoose && len(got) > len(m.err) {
+			// positions the failing script's own constructs added between the fault and the first use()
+			// call site: they must lie in the failing script's file; everything after them is exact
+			extra := len(got) - len(m.err)
+			for _, g := range got[1 : 1+extra] {
+				if g.File != m.err[0].File {
+					return viol("error", "chain-entry", fmt.Sprintf("error chain %v: the use() call sites %v must be the tail of the chain; entry %s:%d:%d lies between the fault and them but is not in the failing script %s", got, m.err[1:], g.File, g.Ln, g.Col, m.err[0].File))
+				}
+			}
+			got = append(append([]errchain.Position{}, got[0]), got[1+extra:]...)
+			res.Probes["error_chains_with_in_script_positions"]++
+		}
+		if len(got) != len(m.err) {
 			return viol("error", "chain-length", fmt.Sprintf("error chain %v, model expects %v", rerr.PosChain, m.err))
 		}
 		for i, e := range m.err {
-			g := rerr.PosChain[i]
+			g := got[i]
 			if g.File != e.File || g.Ln != e.Ln || g.Col != e.Col {
 				return viol("error", "chain-entry", fmt.Sprintf("error chain entry %d is %s:%d:%d, model expects %s:%d:%d (full chain %v)", i, g.File, g.Ln, g.Col, e.File, e.Ln, e.Col, rerr.PosChain))
 			}
 		}
-		// rendering
+		// rendering: file:ln:col: message, then one file:ln:col: line per further position
 		want := fmt.Sprintf("%s:%d:%d: injected run-time error", m.err[0].File, m.err[0].Ln, m.err[0].Col)
-		for _, e := range m.err[1:] {
+		for _, e := range rerr.PosChain[1:] {
 			want += fmt.Sprintf("\n%s:%d:%d:", e.File, e.Ln, e.Col)
 		}
 		if rerr.Error() != want {
